@@ -10,7 +10,7 @@ from .. import shimlab as S
 
 ID = "C04"
 LEVEL = "model_checking"
-RULE = ("trees {group of 2, group of 3 with a hard link, two groups} x target file f in {retained member, dropped member} x "
+RULE = ("trees {group of 2, group of 3 with a hard link, two groups, two --isolate roots with two files each} x target file f in {retained member, dropped member, second file of a retained / dropped isolate root} x "
         "mutation in {rewrite same length, rewrite other length, append, truncate, delete, delete+recreate same bytes, "
         "delete+recreate other bytes, replace by directory, by dangling symlink, by symlink to a fresh file, touch} x "
         "position: the external mutator is interleaved at EVERY event k (file-system read calls and clock reads) of the "
@@ -32,6 +32,12 @@ TREES = {
     "two_groups": [{"p": "r/a/f1", "k": "file", "c": ["lit", "xxxxxxxx"]}, {"p": "r/b/f2", "k": "file", "c": ["lit", "xxxxxxxx"]},
                    {"p": "r/a/g1", "k": "file", "c": ["base", 5000, 2]}, {"p": "r/b/g2", "k": "file", "c": ["base", 5000, 2]}],
 }
+# (group arguments, input roots, target files) per tree; default: no extra arguments, root r, both f1 and f2
+TREE_OPTS = {
+    "isolate": (["--isolate"], ["r1", "r2"], ["r1/b/f2", "r2/c/f4", "r2/c/f3"]),
+}
+TREES["isolate"] = [{"p": "r1/a/f1", "k": "file", "c": ["base", 3000, 1]}, {"p": "r1/b/f2", "k": "file", "c": ["base", 3000, 1]},
+                    {"p": "r2/c/f3", "k": "file", "c": ["base", 3000, 1]}, {"p": "r2/c/f4", "k": "file", "c": ["base", 3000, 1]}]
 MUTATIONS = ["rewrite_same_len", "rewrite_other_len", "append", "truncate", "delete", "recreate_same", "recreate_other",
              "to_directory", "to_dangling_symlink", "to_symlink_fresh", "touch"]
 OPS = ["remove", "link", "softlink", "dedupe", "move"]
@@ -44,7 +50,7 @@ def prepare(tier):
 def cases(tier, seed):
     out = []
     for t in TREES:
-        for f in ("r/a/f1", "r/b/f2"):
+        for f in (TREE_OPTS[t][2] if t in TREE_OPTS else ("r/a/f1", "r/b/f2")):
             for m in MUTATIONS:
                 out.append({"tree": t, "f": f, "mutation": m, "tier": tier})
     return out
@@ -112,7 +118,8 @@ def evaluate(case):
     reached = []
     with C.Scratch() as sc:
         f_abs = sc.path(case["f"]).decode()
-        args = ["group", "-t", "1", "r"]
+        gargs, groots, _ = TREE_OPTS.get(case["tree"], ([], ["r"], None))
+        args = ["group", "-t", "1"] + gargs + groots
         snap = os.path.join(sc.root, "snap")
         target = os.path.join(sc.root, "moved")
 
@@ -177,7 +184,7 @@ def evaluate(case):
                 sb = set(x["sha"] for x in before.values() if x["type"] == "file")
                 sa = set(x["sha"] for x in after.values() if x["type"] == "file")
                 feat = {"mutation": case["mutation"], "phase": phase, "op": op,
-                        "target_is_retained_member": case["f"].endswith("f1")}
+                        "target_is_retained_member": case["f"].endswith("f1"), "isolate": case["tree"] in TREE_OPTS}
                 rc_case = dict(case, only=[[kind, k], op])
                 if "panicked" in r["err"] or r["timeout"]:
                     viol.append(dict(feat, kind="crash", detail=r["err"][-300:], replay_case=rc_case))
